@@ -121,7 +121,8 @@ def replay(path):
 # property profiles (generator settings biased towards each property's quantifier)
 W = dict
 PROFILES = {
-    "C01": [("nesting", dict(intxn_defs=0.5, scoped=0.5, deep_nest=0.5, nest=0.8, unlisten=0.3, n_listen=(2, 5), obs=0.2)),
+    "C01": [("nesting", dict(intxn_defs=0.5, scoped=0.5, deep_nest=0.5, nest=0.8, unlisten=0.3, unlisten_in_txn=0.3, n_listen=(2, 5), obs=0.2)),
+            ("carry-over", dict(n_defs=(4, 10), n_listen=(2, 5), max_defer=3, posts=0.2, nest=0.6, weights=W(defer=5, split=2, map=5, merge=6, orelse=2, snapshot=2, hold=2, gate=1))),
             ("late-listeners", dict(intxn_defs=0.8, nest=0.9, n_listen=(0, 2)))],
     "C02": [("streams", dict(n_defs=(4, 14), samples=0.1, self_merge=True,
                              weights=W(map=5, mapto=1, filter=3, filteropt=1, merge=6, orelse=2, snapshot=3, snapshot1=1, snapshotn=1.5, gate=2, once=2,
@@ -129,9 +130,11 @@ PROFILES = {
             ("streams-intxn", dict(n_defs=(3, 10), intxn_defs=0.5, self_merge=True, weights=W(once=3, merge=6, gate=2)))],
     "C04": [("cells", dict(samples=0.9, n_txn=(5, 20), intxn_defs=0.3, n_listen=(0, 2),
                            weights=W(hold=4, holdlazy=1.5, accum=3, collect=3, snapshot=4, csink=3, gate=1.5, mapc=1, lift2=1)))],
-    "C05": [("switch", dict(n_defs=(5, 12), samples=0.5, intxn_defs=0.2, sends_per_txn=(1, 4),
+    "C05": [("switch-defer", dict(n_defs=(5, 11), sends_per_txn=(1, 4), max_defer=2, samples=0.3,
+                                  weights=W(switchs=6, switchc=2, defer=5, split=1, csink=4, ssink=3, map=2, hold=2, merge=2))),
+            ("switch", dict(n_defs=(5, 12), samples=0.5, intxn_defs=0.2, sends_per_txn=(1, 4),
                             weights=W(switchs=4, switchc=4, csink=4, hold=3, ssink=4, lift2=1, accum=1)))],
-    "C10": [("listeners", dict(n_listen=(2, 6), unlisten=0.5, intxn_defs=0.6, drops=0.3, gcs=0.3, weak=0.15, weights=W(value=2, hold=3, csink=3)))],
+    "C10": [("listeners", dict(n_listen=(2, 6), unlisten=0.5, unlisten_in_txn=0.5, nest=0.8, intxn_defs=0.6, drops=0.3, gcs=0.3, weak=0.15, weights=W(value=2, hold=3, csink=3)))],
     "C11": [("loops", dict(n_defs=(3, 9), samples=0.4, weights=W(sloop=2.5, cloop=2.5, hold=3, snapshot=4, accum=1, merge=4, gate=1, lift2=2, mapc=2))),
             ("loops-misuse", dict(n_defs=(3, 8), malformed=True, weights=W(sloop=2, cloop=2, hold=3, snapshot=3)))],
     "C12": [("defer-chains", dict(posts=0.3, samples=0.4, obs=0.4, max_defer=3, weights=W(defer=6, split=3, hold=3, csink=3, snapshot=4, snapshot1=2, once=1))),
@@ -147,7 +150,9 @@ PROFILES = {
                            weights=W(sloop=1.5, cloop=1.5, accum=2, collect=2, switchs=1.5, switchc=1, router=1, defer=1, lift2=2, hold=3, snapshot=3)))],
     "C07": [("abandon", dict(leakcheck=True, drops=0.4, gcs=0.3, memchecks=0.3, n_txn=(0, 6), unlisten=0.3, no_switchc_in_loop=True,
                              weights=W(sloop=1.5, cloop=1.5, accum=2, collect=2, switchs=1.5, switchc=1, router=1, defer=1, split=0.5, lift2=2, hold=3, snapshot=3, mapc=2)))],
-    "C09": [("reorder", dict(n_defs=(4, 12), samples=0.4, weights=W(defer=0.7, lift2=2, accum=1, switchs=0.5)))],
+    "C09": [("switch-defer", dict(n_defs=(5, 11), sends_per_txn=(1, 4), max_defer=2, samples=0.3,
+                                  weights=W(switchs=6, switchc=2, defer=5, split=1, csink=4, ssink=3, map=2, hold=2, merge=2, once=1))),
+            ("reorder", dict(n_defs=(4, 12), samples=0.4, weights=W(defer=0.7, lift2=2, accum=1, switchs=0.5)))],
 }
 
 
